@@ -2,7 +2,11 @@
    translated from the source) and every call site passing scope.referenced (callsites_gen), no
    generated name equals a name that the user's code reads, writes or binds in an except clause in the
    requesting scope or any enclosing scope, nor a name of the function's namespace -- for every scope chain, every namespace,
-   every sequence of requests. *)
+   every sequence of requests.
+   The `ns` of the statement is tied to the source on every run as well: namer_sites_gen lists every
+   construction of a Namer in malt/, and the translator only marks a site `true` when the Namer receives the
+   unfiltered result of inspect_utils.getnamespace(fn) (all module globals and closure variables of the
+   function, whether or not its code mentions them) and that namer is the one handed to the converters. *)
 From Coq Require Import String List Arith Bool.
 Import ListNotations.
 Require Import MV.Names.Namer MV.Names.NamerProofs MV.Generated.C11_gen.
@@ -16,6 +20,10 @@ Theorem callsites_pass_referenced :
      (filter (fun s => match s with "" => false | _ => true end)
         (map (fun e' => if String.prefix "malt/converters" (fst (fst e')) then fst (fst e') else "") callsites_gen)))) callsites_gen = true.
 Proof. vm_compute; reflexivity. Qed.
+
+Theorem namer_built_from_full_namespace :
+  namer_sites_gen <> [] /\ forallb (fun e => snd e) namer_sites_gen = true.
+Proof. split; [discriminate | vm_compute; reflexivity]. Qed.
 
 Theorem generated_names_never_clash : forall (ns gen : list string) (chain : list scope) (reqs : list string),
   let rq := map (fun r => (r, map QSimple (referenced referenced_gen chain))) reqs in
@@ -42,3 +50,4 @@ Qed.
 Print Assumptions generated_names_never_clash.
 Print Assumptions referenced_gen_covers_writes.
 Print Assumptions callsites_pass_referenced.
+Print Assumptions namer_built_from_full_namespace.
